@@ -335,7 +335,8 @@ class Exporter:
                     t = ip_template(rng, self.new_id(), lossless=self.lossless, varlen=not self.lossless, enterprise=not self.lossless)
                     t["scopeCount"] = rng.randrange(1, len(t["fields"]) + 1)
                     if self.wild and rng.random() < 0.2:
-                        t["scopeCount"] = len(t["fields"]) + rng.choice([1, 2, 60000])     # scope count above field count
+                        nf_ = len(t["fields"])
+                        t["scopeCount"] = rng.choice([nf_ + 1, nf_ + 2, nf_ + 60000, 65535, 65536 - nf_, 65535 - nf_, 65537 - nf_])     # scope count above field count, also where scope + field count leaves 16 bits
                         self.dirty = True
                     ts.append(t)
                     self.ip[t["id"]] = ("o", t)
@@ -661,6 +662,42 @@ def fam_chain(rng, n, max_pkts=6, all_partitions=False):
     return out
 
 
+def fam_chain_many_templates(rng, sizes=(1100,)):
+    """C11 / C06: ONE packet that announces more than a thousand templates (ids 256..), then data for the first, a middle and the last
+    of them — joined in one call on parser 0, one packet per call on parser 1 (any bookkeeping keyed to the cache SIZE that runs per
+    call, per packet or per buffer shows as a difference between the two deliveries)"""
+    out = []
+    for M in sizes:
+        for proto in (9, 10):
+            ids = [256 + i for i in range(M)]
+            probe = [ids[0], ids[M // 2], ids[-1]]
+            if proto == 9:
+                def m9(sets, k):
+                    return {"v9": {"m": {"count": len(sets), "sysUpTime": k, "unixSecs": k, "seq": k, "sourceId": 1, "sets": sets}}}
+                tm = m9([{"templates": {"ts": [{"id": i, "fieldCount": 1, "fields": [{"typ": 1, "len": 4}]} for i in ids], "pad": ""}}], 1)
+                om = m9([{"optTemplates": {"ts": [{"id": 30000 + i, "scopeLen": 4, "optLen": 4, "scope": [{"typ": 1, "len": 4}], "opts": [{"typ": 2, "len": 4}]} for i in ids], "pad": ""}}], 1)
+                datas = [m9([{"data": {"id": i, "recs": [["0000002a"]], "pad": ""}}], 2) for i in probe]
+                odatas = [m9([{"data": {"id": 30000 + i, "recs": [["00000001", "00000002"]], "pad": ""}}], 2) for i in probe[:1]]
+            else:
+                def mi(sets, k):
+                    return {"ipfix": {"m": {"exportTime": k, "seq": k, "odid": 1, "sets": sets}}}
+                tm = mi([{"templates": {"ts": [{"id": i, "fields": [{"typ": 1, "len": 4, "ent": None}]}], "pad": ""}} for i in ids], 1)
+                om = mi([{"optTemplates": {"ts": [{"id": 30000 + i, "scopeCount": 1, "fields": [{"typ": 1, "len": 4, "ent": None}, {"typ": 2, "len": 4, "ent": None}]}], "pad": ""}} for i in ids], 1)
+                datas = [mi([{"data": {"id": i, "recs": [[{"content": "0000002a", "form": "fixed"}]], "pad": ""}}], 2) for i in probe]
+                odatas = [mi([{"data": {"id": 30000 + i, "recs": [[{"content": "00000001", "form": "fixed"}, {"content": "00000002", "form": "fixed"}]], "pad": ""}}], 2) for i in probe[:1]]
+            for first, later in ((tm, datas), (om, odatas)):
+                msgs = [first] + later
+                ops = [op_new(0), op_parse(0, msgs=msgs, want=[]), op_new(1)]
+                for m in msgs:
+                    ops.append(op_parse(1, msgs=[m], want=[]))
+                ops.append({"op": "assert_chain", "a": 0, "b": 1})
+                for o in ops:
+                    if o.get("op") == "parse":
+                        o["nospec"] = True
+                out.append(("chain-many-templates-%d" % proto, ops))
+    return out
+
+
 def fam_chain_minimal(rng, n):
     """C11: LONG chains (6..60) of minimal self-delimiting packets — header-only V5/V7/V9/IPFIX in every mix, so that the number
     of packets per byte is maximal — optionally ending in a template message whose data arrives in the next call"""
@@ -878,6 +915,86 @@ def fam_trunc(rng, n, fracs=None):
             ops.append(op_parse(1, msgs=pre, want=[]) if pre else op_parse(1, hexs="", want=[]))
             ops.append({"op": "assert_trunc", "a": 0, "b": 1, "cutlen": "last", "keep_state": v != 9})
             out.append(("trunc-v%d" % v, ops))
+    return out
+
+
+def fam_trunc_wide(rng):
+    """C14: V5 / V7 packets whose announced record block is longer than 65535 bytes (count * record size leaves 16 bits), cut one byte
+    short, one record short, and just above 65535 body bytes — alone and after another packet"""
+    out = []
+    for v, cnt, bound in ((5, 1367, 1366), (7, 1262, 1261), (5, 1366, 1365), (7, 1261, 1260)):
+        last = (msg_v5 if v == 5 else msg_v7)(rng, cnt)
+        for pre in ([], [msg_v5(rng, 1)]):
+            for cut in ({"cutfrac": 1000}, {"cutfrac": 500, "cutbound": bound, "cutdelta": 0}, {"cutfrac": 500, "cutbound": bound, "cutdelta": 1}):
+                ops = [op_new(0), op_new(1)]
+                o = op_parse(0, msgs=pre + [last], want=[])
+                o.update(cut)
+                ops.append(o)
+                ops.append(op_parse(1, msgs=pre, want=[]) if pre else op_parse(1, hexs="", want=[]))
+                ops.append({"op": "assert_trunc", "a": 0, "b": 1, "cutlen": "last", "keep_state": True})
+                out.append(("trunc-wide-v%d" % v, ops))
+    return out
+
+
+def fam_setorder(rng, n, protos=(9, 10), exhaustive=False, want=WANT_ALL):
+    """bounded-exhaustive ORDER of sets inside ONE packet: every sequence of at most 3 sets over {template A 256, template B 256, options
+    template 256, data sized for A, data sized for the options template, template 257, data 257}, after each of three pre-histories
+    (nothing / template A cached / options template cached), followed by two probe data packets.  Data ahead of its own template, two
+    meanings of one id in one packet, a template between two data sets, … are all in it."""
+    import itertools
+    A = [{"typ": 1, "len": 4}, {"typ": 7, "len": 2}]
+    B = [{"typ": 8, "len": 4}, {"typ": 4, "len": 1}, {"typ": 5, "len": 1}]
+    S7 = [{"typ": 2, "len": 4}]
+    recA = [["0000ffff", "0050"], ["01020304", "ffff"]]
+    recO = [["00000001", "0005"]]
+    rec7 = [["00000007"], ["ffffffff"]]
+    out = []
+    for proto in protos:
+        if proto == 9:
+            def pk(sets, k=1):
+                return {"v9": {"m": {"count": len(sets), "sysUpTime": k, "unixSecs": k, "seq": k, "sourceId": 1, "sets": sets}}}
+            sets = {"Ta": {"templates": {"ts": [{"id": 256, "fieldCount": 2, "fields": A}], "pad": ""}},
+                    "Tb": {"templates": {"ts": [{"id": 256, "fieldCount": 3, "fields": B}], "pad": ""}},
+                    "Oa": {"optTemplates": {"ts": [{"id": 256, "scopeLen": 4, "optLen": 4, "scope": [{"typ": 1, "len": 4}], "opts": [{"typ": 1, "len": 2}]}], "pad": ""}},
+                    "T7": {"templates": {"ts": [{"id": 257, "fieldCount": 1, "fields": S7}], "pad": ""}},
+                    "Da": {"data": {"id": 256, "recs": recA, "pad": ""}}, "Do": {"data": {"id": 256, "recs": recO, "pad": ""}},
+                    "D7": {"data": {"id": 257, "recs": rec7, "pad": ""}}}
+        else:
+            def pk(sets, k=1):
+                return {"ipfix": {"m": {"exportTime": k, "seq": k, "odid": 1, "sets": sets}}}
+            f = lambda fs: [dict(x, ent=None) for x in fs]
+            r = lambda recs: [[{"content": c, "form": "fixed"} for c in rec] for rec in recs]
+            sets = {"Ta": {"templates": {"ts": [{"id": 256, "fields": f(A)}], "pad": ""}},
+                    "Tb": {"templates": {"ts": [{"id": 256, "fields": f(B)}], "pad": ""}},
+                    "Oa": {"optTemplates": {"ts": [{"id": 256, "scopeCount": 1, "fields": f([{"typ": 1, "len": 4}, {"typ": 2, "len": 2}])}], "pad": ""}},
+                    "T7": {"templates": {"ts": [{"id": 257, "fields": f(S7)}], "pad": ""}},
+                    "Da": {"data": {"id": 256, "recs": r(recA), "pad": ""}}, "Do": {"data": {"id": 256, "recs": r(recO), "pad": ""}},
+                    "D7": {"data": {"id": 257, "recs": r(rec7), "pad": ""}}}
+        letters = sorted(sets)
+        seqs = [(pre, s_) for pre in (None, "Ta", "Oa") for L in (2, 3) for s_ in itertools.product(letters, repeat=L)]
+        if not exhaustive and len(seqs) > n:
+            seqs = rng.sample(seqs, n)
+        for pre, seq in seqs:
+            ops = [op_new(0)]
+            msgs = ([pk([sets[pre]])] if pre else []) + [pk([sets[x] for x in seq], 2), pk([sets["Da"]], 3), pk([sets["Do"]], 3)]
+            # C07: the first data set of the packet whose id nothing has defined yet (neither the pre-history nor an earlier set of the
+            # same packet) is data for an UNKNOWN template: no record may be reported for that id by this call
+            known = {"256"} if pre else set()
+            unknown = None
+            for x in seq:
+                tid = "257" if x.endswith("7") else "256"
+                if x[0] in "TO":
+                    known.add(tid)
+                elif tid not in known:
+                    unknown = int(tid)
+                    break
+            for j, m in enumerate(msgs):
+                o = op_parse(0, msgs=[m], want=list(want)); o["nospec"] = True
+                if unknown is not None and j == (1 if pre else 0):
+                    o["unknown_id"] = unknown
+                    o["unknown_proto"] = proto
+                ops.append(o)
+            out.append(("setorder-%d" % proto, ops))
     return out
 
 
